@@ -241,26 +241,55 @@ def run_job(job, workdir):
                 r['str'] = 'EXC:' + exc_name(ex)
         res['values'].append(r)
     if 'decode' in job:
-        res['decode'] = [decode_one(cls, t, e, bytes(bytearray.fromhex(h))) for e, h in job['decode']]
+        res['decode'] = [decode_one(cls, t, e, bytes(bytearray.fromhex(h)), fixpoint=True) for e, h in job['decode']]
     return res
 
 
-def decode_one(cls, t, e, data):
+def count_elements(v):
+    if isinstance(v, list):
+        if v and v[0] == 'list':
+            return len(v[1]) + sum(count_elements(x) for x in v[1])
+        if v and v[0] == 'struct':
+            return sum(count_elements(x) for x in v[1])
+        if v and v[0] == 'some':
+            return count_elements(v[1])
+        if v and v[0] == 'union':
+            return count_elements(v[2])
+    return 0
+
+
+def decode_one(cls, t, e, data, fixpoint=False):
+    import time
     r = {}
+    t0 = time.time()
     try:
         m2 = cls()
         r['consumed'] = m2.decode(data, e)
     except BaseException as ex:  # noqa
         r['exc'] = exc_name(ex)
+        r['time'] = time.time() - t0
         return r
+    r['time'] = time.time() - t0
     try:
         r['value'] = get_struct(m2, t)
+        r['elements'] = count_elements(r['value'])
     except BaseException as ex:  # noqa
         r['get_exc'] = exc_name(ex)
     try:
-        r['reenc'] = bytearray(m2.encode(e)).hex()
+        reenc = m2.encode(e)
+        r['reenc'] = bytearray(reenc).hex()
     except BaseException as ex:  # noqa
         r['reenc'] = 'EXC:' + exc_name(ex)
+        return r
+    if fixpoint:
+        try:
+            m3 = cls()
+            c3 = m3.decode(reenc, e)
+            v3 = get_struct(m3, t)
+            b3 = m3.encode(e)
+            r['fix'] = {'consumed_all': c3 == len(reenc), 'same_value': v3 == r.get('value'), 'same_bytes': b3 == reenc}
+        except BaseException as ex:  # noqa
+            r['fix'] = {'exc': exc_name(ex)}
     return r
 
 
